@@ -5,6 +5,7 @@ import (
 	"fmt"
 	"net"
 	"sync"
+	"syscall"
 	"time"
 )
 
@@ -93,6 +94,33 @@ func (c *DNSCache) lookup(ctx context.Context, name string) (*dnsCacheEntry, boo
 }
 
 func (c *DNSCache) DialContext(ctx context.Context, network, address string) (net.Conn, error) {
+	return c.dialContext(ctx, network, address, nil)
+}
+
+// dialContext is DialContext on behalf of a client that may have allow / deny
+// lists of its own (alsoControl, the control function of its dialer): a
+// connection is then made only to addresses that the lists of the cache and
+// those of the client both permit.
+func (c *DNSCache) dialContext(
+	ctx context.Context, network, address string,
+	alsoControl func(context.Context, string, string, syscall.RawConn) error,
+) (net.Conn, error) {
+	dialer := &c.dialer
+	if alsoControl != nil {
+		both := c.dialer
+		cacheControl := c.dialer.ControlContext
+		both.ControlContext = func(ctx context.Context, network, address string, conn syscall.RawConn) error {
+			if err := alsoControl(ctx, network, address, conn); err != nil {
+				return err
+			}
+			if cacheControl != nil {
+				return cacheControl(ctx, network, address, conn)
+			}
+			return nil
+		}
+		dialer = &both
+	}
+
 	// Split up the host and port from the give address.
 	host, port, err := net.SplitHostPort(address)
 	if err != nil {
@@ -116,7 +144,7 @@ retryLookup:
 	// Try each address in the cached entry. If we successfully connect
 	// to one of those addresses then return the conn and stop there.
 	for _, addr := range entry.addrs {
-		conn, err := c.dialer.DialContext(ctx, "tcp", net.JoinHostPort(addr.String(), port))
+		conn, err := dialer.DialContext(ctx, "tcp", net.JoinHostPort(addr.String(), port))
 		if err != nil {
 			continue
 		}
